@@ -63,6 +63,7 @@ static WBXMLBuffer *other_of(const char *hex, unsigned char **keep) {
 
 int main(void) {
     char *line, *tok[8];
+    setvbuf(stdout, NULL, _IOLBF, 0);       /* an answer must not be lost when a later operation aborts */
     while ((line = vh_line(stdin)) != NULL) {
         int nt = vh_split(line, tok, 8);
         /* ---- lists ---- */
